@@ -918,7 +918,7 @@ func genRoots(g *hx.Gen, n int) {
 }
 
 func (P) Generate(g *hx.Gen) {
-	// corpus: the known findings and the boundary behaviours
+	// corpus: the repaired defects (negative index: fix 22a07c6; header total: bounded by the callers, fix 1b2bd5e) and the boundary behaviours
 	g.Case("corpus addpart negative index", []string{hx.CaseOp("malformed"), "fromheader total=2 hash=01", "addpart index=-1 bytes=- aunts=-", "addpart index=2 bytes=- aunts=-", "addpart index=0 bytes=00 aunts=-", "header"}, true)
 	g.Case("corpus header total range", []string{hx.CaseOp("malformed"), "fromheader total=-1 hash=01", "addpart index=0 bytes=- aunts=-",
 		fmt.Sprintf("fromheader total=%d hash=01", int64(math.MinInt64)), fmt.Sprintf("fromheader total=%d hash=01", int64(math.MaxInt64)),
